@@ -4,6 +4,7 @@ import (
 	"context"
 	"encoding/json"
 	"fmt"
+	"math"
 	"os"
 	"path/filepath"
 	"sync"
@@ -191,6 +192,14 @@ func genCase(t *rapid.T, scan bool) Case {
 		c.Start = c.Init
 	default:
 		c.Start = c.Init + rapid.Int64Range(1, 25).Draw(t, "startBeyond")
+	}
+	// "for any batch size": BatchSize is an int; values near its maximum must not upset the range
+	// arithmetic wherever the cursor stands (StartIndex > 0, later rounds of a continuous run).
+	if weighted(t, "hugeBatch", 11, 1) == 1 {
+		c.Batch = []int{
+			math.MaxInt64, math.MaxInt64 - 1, 1 << 62, math.MaxInt32 + 1,
+			int(math.MaxInt64 - c.Start), int(math.MaxInt64 - c.Start - 1), int(math.MaxInt64 - max(c.Start, 1) + 1),
+		}[rapid.IntRange(0, 6).Draw(t, "hugeBatchValue")]
 	}
 	switch weighted(t, "endClass", 8, 6, 3, 1) {
 	case 0:
